@@ -163,6 +163,12 @@ def parser_link(item):
     expect = {LIB[el[0]] for el in shape if el[0] in LIB} | ({"LiquidCrystal_I2C"} if any(el[0] == "lcd_anim" for el in shape) else set())
     if set(libs) != expect:
         probs.append(f"requested {sorted(libs)} but the script declares devices needing {sorted(expect)}")
+    # what is requested in the end is what platformio.ini says: render the lib_deps section with the real helper
+    from Reduino.toolchain import pio as _pio
+    rendered = _pio._format_lib_section(libs)
+    in_ini = [ln.strip() for ln in rendered.split("\n")[1:] if ln.strip()] if rendered.strip() else []
+    if sorted(in_ini) != sorted(expect):
+        probs.append(f"platformio.ini would request {in_ini} but the script declares devices needing {sorted(expect)}")
     if not probs:
         ok, err = lower.syntax_check(cpp, tag="c14")
         if not ok:
@@ -213,7 +219,7 @@ def run(tier, seed, only=None):
                     "space within the bound (there is no data to quantify over).  Parser link: the same shapes - plus Button and "
                     "animated-LCD devices, for which the parser injects housekeeping nodes at the top of loop() - as script "
                     "text through parse() and the compiler front end.",
-        functions_encoded=["Reduino._program_contains", "Reduino._collect_required_libraries", "Reduino.transpile.emitter.emit "
+        functions_encoded=["Reduino._program_contains", "Reduino._collect_required_libraries", "Reduino.toolchain.pio._format_lib_section (parser link)", "Reduino.transpile.emitter.emit "
                            "(include/global stitching)", "parser LCD interface selection (through parse())"],
         bounds={"device slots": nslots, "kinds": list(KINDS), "placements": 3, "constructor variants per kind": 3, "parser-link shapes": len(shapes)},
         assumptions=["LCDs are declared before the main loop; Servos before it or at the top of its body (property scope)"],
